@@ -5,6 +5,7 @@ import (
 	"fmt"
 	"io"
 	"math"
+	"math/big"
 	"os/exec"
 	"regexp"
 	"strconv"
@@ -106,12 +107,15 @@ func (s *Solver) run(body string, vars []string, timeout time.Duration) QueryRes
 		}()
 		return ch
 	}
-	if _, err := io.WriteString(s.in, sb.String()); err != nil {
-		return QueryResult{Verdict: "error", Raw: err.Error()}
-	}
+	csCh := readUntil("<<cs>>")
+	werr := make(chan error, 1)
+	go func() {
+		_, err := io.WriteString(s.in, sb.String())
+		werr <- err
+	}()
 	var r lineRes
 	select {
-	case r = <-readUntil("<<cs>>"):
+	case r = <-csCh:
 	case <-time.After(timeout + 10*time.Second):
 		s.kill()
 		return QueryResult{Verdict: "unknown", Raw: "watchdog timeout", MS: time.Since(start).Milliseconds()}
@@ -159,7 +163,7 @@ func (s *Solver) run(body string, vars []string, timeout time.Duration) QueryRes
 	return res
 }
 
-var modelRe = regexp.MustCompile(`\(\|?([A-Za-z0-9_.$:\-\[\]<>/#@*+ ]+?)\|?\s+(#x[0-9a-fA-F]+|#b[01]+|true|false|\(fp #b[01] #b[01]+ #b[01]+\)|\(_ [+-]?[A-Za-z]+ \d+ \d+\)|\(_ bv\d+ \d+\))\)`)
+var modelRe = regexp.MustCompile(`\(\|?([A-Za-z0-9_.$:\-\[\]<>/#@*+ ]+?)\|?\s+(#x[0-9a-fA-F]+|#b[01]+|true|false|\(fp #b[01] #b[01]+ #b[01]+\)|\(_ [+-]?[A-Za-z]+ \d+ \d+\)|\(_ bv\d+ \d+\)|\(- \d+\)|\d+)\)`)
 
 func parseModel(s string) map[string]string {
 	m := map[string]string{}
@@ -176,6 +180,18 @@ func modelValue(lit string) (uint64, bool) {
 		return 1, true
 	case lit == "false":
 		return 0, true
+	case strings.HasPrefix(lit, "(- "):
+		b, ok := new(big.Int).SetString(strings.TrimSuffix(strings.TrimPrefix(lit, "(- "), ")"), 10)
+		if !ok {
+			return 0, false
+		}
+		return 0 - b.Uint64(), true
+	case lit != "" && lit[0] >= '0' && lit[0] <= '9':
+		b, ok := new(big.Int).SetString(lit, 10)
+		if !ok {
+			return 0, false
+		}
+		return b.Uint64(), true
 	case strings.HasPrefix(lit, "#x"):
 		v, err := strconv.ParseUint(lit[2:], 16, 64)
 		return v, err == nil
